@@ -196,6 +196,9 @@ fn eval_union_expr(
         };
     }
 
+    // A node-set is in document order whatever the order of the operands.
+    nodes.sort_by_cached_key(|v| v.order());
+
     let mut set = HashSet::new();
     nodes.retain(|v| set.insert(v.order()));
 
